@@ -434,7 +434,7 @@ class SynthDescLib(metaclass=MetaSynthDescLib):
         self.servers.remove(server)
 
     def at(self, name):
-        return self.synth_descs[name]
+        return self.synth_descs.get(name)  # None if absent, callers check.
 
     def match(self, name):
         # This method is not being used here, no PmonoStream.printIn.
